@@ -131,6 +131,8 @@ func (c20) step(t []string) string {
 		return itoa(typ.ZeroOf(atoi(t[1])))
 	case "iszerom": // a comparable type WITH an IsZero method (true for even fields)
 		return btoa(typ.IsZero(zeroer{atoi(t[1])}))
+	case "iszeros": // a comparable type whose IsZero method REJECTS the Go zero value (sentinel 7): the zero value is zero all the same
+		return btoa(typ.IsZero(sentinelZero{atoi(t[1])}))
 	case "terncast": // terncast <cond> <kind> <v> <ifFalse>: kind 0 = the dynamic type is int (assertion succeeds), 1 = it is string
 		var value any = atoi(t[3])
 		if atoi(t[2]) == 1 {
@@ -243,3 +245,8 @@ func (z zeroer) IsZero() bool { return z.a%2 == 0 }
 type badOp2 struct{}
 
 func (badOp2) Error() string { return "e" }
+
+// sentinelZero: IsZero reports the sentinel 7, not the Go zero value
+type sentinelZero struct{ a int }
+
+func (z sentinelZero) IsZero() bool { return z.a == 7 }
